@@ -10,6 +10,8 @@ and store the result as /verif/seeded/<name>/{patch.diff,demo.py,notes.md,meta.j
 """
 import json, os, re, shutil, subprocess, sys, time
 
+VD = os.environ.get("VERIF_DIR", "/verif")   # a frozen copy of /verif measures first contact
+
 def sh(cmd, **kw):
     p = subprocess.run(cmd, shell=True, capture_output=True, text=True, **kw)
     return p.returncode, p.stdout + p.stderr
@@ -57,7 +59,7 @@ def main():
                 evd = "/tmp/acn-sv-ev.%d" % os.getpid()
                 rpd = "/tmp/acn-sv-rp.%d" % os.getpid()
                 t0 = time.time()
-                rc2, o2 = sh("cd /verif && VERIF_REPO=%s VERIF_EVIDENCE_DIR=%s VERIF_REPLAY_DIR=%s ./check %s --tier %s" % (wt, evd, rpd, p, tier))
+                rc2, o2 = sh("cd %s && VERIF_REPO=%s VERIF_EVIDENCE_DIR=%s VERIF_REPLAY_DIR=%s ./check %s --tier %s" % (VD, wt, evd, rpd, p, tier))
                 viol = [l for l in o2.splitlines() if l.startswith("VIOLATION")]
                 entry = {"exit": rc2, "wall_s": round(time.time() - t0, 1), "violation_lines": [v[:400] for v in viol[:3]],
                          "tier": tier, "summary": [l for l in o2.splitlines() if l.startswith(p + " tier=")][:1]}
@@ -65,9 +67,9 @@ def main():
                 if viol:
                     m = re.search(r"replay=(\S+)", viol[0])
                     if m and os.path.exists(m.group(1)):
-                        rc3, o3 = sh("cd /verif && VERIF_REPO=%s ./check %s --replay %s" % (wt, p, m.group(1)))
+                        rc3, o3 = sh("cd %s && VERIF_REPO=%s ./check %s --replay %s" % (VD, wt, p, m.group(1)))
                         entry["replay_exit"] = rc3
-                        rc4, o4 = sh("cd /verif && ./check %s --replay %s" % (p, m.group(1)))
+                        rc4, o4 = sh("cd %s && ./check %s --replay %s" % (VD, p, m.group(1)))
                         entry["replay_exit_on_unchanged_tree"] = rc4
                         try:
                             rj = json.load(open(m.group(1)))
